@@ -506,3 +506,72 @@ func (r *Report) SpecFailKeys() []string {
 	}
 	return k
 }
+
+// ---------- schedule driver: goroutines parked at a verif yield site
+
+// Goid returns the runtime id of the calling goroutine (parsed from runtime.Stack).
+func Goid() string {
+	var buf [64]byte
+	n := runtime.Stack(buf[:], false)
+	f := strings.Fields(string(buf[:n]))
+	if len(f) > 1 {
+		return f[1]
+	}
+	return ""
+}
+
+// G controls one operation running in its own goroutine under a Sched.
+type G struct {
+	Parked  chan struct{} // receives once when the goroutine has reached the yield site
+	Release chan struct{} // send once to let it continue
+	Done    chan struct{} // closed when the operation has returned
+	Op      []string      // free for the harness
+	State   string        // free for the harness
+}
+
+// Sched parks goroutines started through Start at one yield site of the code under test.
+// Set spine.VerifYield = s.Hook. Goroutines not started through Start pass through the hook.
+type Sched struct {
+	Site string
+	mu   sync.Mutex
+	gs   map[string]*G
+}
+
+func NewSched(site string) *Sched { return &Sched{Site: site, gs: map[string]*G{}} }
+
+func (s *Sched) Hook(site string) {
+	if site != s.Site {
+		return
+	}
+	s.mu.Lock()
+	g := s.gs[Goid()]
+	s.mu.Unlock()
+	if g == nil {
+		return
+	}
+	g.Parked <- struct{}{}
+	<-g.Release
+}
+
+// Start runs f in a new goroutine registered with the scheduler and returns its control block
+// after the goroutine is registered (it may already be running f).
+func (s *Sched) Start(f func(), op []string) *G {
+	g := &G{Parked: make(chan struct{}, 1), Release: make(chan struct{}, 1), Done: make(chan struct{}), Op: op}
+	reg := make(chan struct{})
+	go func() {
+		id := Goid()
+		s.mu.Lock()
+		s.gs[id] = g
+		s.mu.Unlock()
+		close(reg)
+		defer func() {
+			s.mu.Lock()
+			delete(s.gs, id)
+			s.mu.Unlock()
+			close(g.Done)
+		}()
+		f()
+	}()
+	<-reg
+	return g
+}
